@@ -8,6 +8,9 @@ package raft
 
 import (
 	"context"
+
+	"github.com/santhosh-tekuri/raft/log"
+
 	"errors"
 	"fmt"
 	"io/ioutil"
@@ -137,6 +140,7 @@ type simNode struct {
 	serveDone chan struct{}
 	serveErr  error
 	inc       int // incarnation counter
+	abandonedInc int
 
 	drivers map[uint64]*driver
 
@@ -206,6 +210,7 @@ var simHooksOnce sync.Once
 
 func simInstallHooks() {
 	simHooksOnce.Do(func() {
+		log.VerifGuardClosedReads()
 		verifHooks.idle = func(r *Raft) {
 			if n := simLookup(r); n != nil {
 				n.loopGate.park(n)
@@ -648,6 +653,12 @@ func (n *simNode) stop() error {
 
 // abandon releases the resources of a stopped incarnation.
 func (n *simNode) abandon() {
+	// exactly once per incarnation: a second munmap could hit an address range
+	// that was recycled for another node's segment
+	if n.abandonedInc == n.inc {
+		return
+	}
+	n.abandonedInc = n.inc
 	if n.r != nil && n.r.storage != nil && n.r.storage.log != nil {
 		func() {
 			defer func() { _ = recover() }()
@@ -798,14 +809,17 @@ func (w *world) settle() error {
 			}
 			for _, id := range sortedDriverIDs(n.drivers) {
 				d := n.drivers[id]
-				if ok, err := d.collect(); err != nil {
+				var ok bool
+				var err error
+				d.guard("collect", func() { ok, err = d.collect() })
+				if err != nil {
 					return err
 				} else if ok {
 					progress = true
 				}
 				if w.opt.EagerConnect && !eagerTried[d] && d.canConnect() && w.reachable(n.idx, int(id-1)) {
 					eagerTried[d] = true
-					d.connect()
+					d.guard("connect", d.connect)
 					if err := w.waitQuiet(); err != nil {
 						return err
 					}
